@@ -382,7 +382,7 @@ def dot_node_collector(lib):
                     cands.append((name, t)); break
     return cands[0] if len(cands) == 1 else (None, None)
 
-def pushes_node(e, env):
+def pushes_node(e, env, target='std::vec::Vec::push'):
     """does this arm put the node into the list it is given?  `if seen.insert(node) { ordered.push(node) }` (first encounter), under
     Boolean conditions on the filter; PredUndec for anything else"""
     while e['k'] in ('Use', 'NeverToAny', 'Borrow', 'Deref'): e = e.get('source') or e.get('arg')
@@ -394,24 +394,24 @@ def pushes_node(e, env):
                 if q['k'] == 'Binding':
                     try: env[q['var']] = ('bool', eval_pred(st['init'], env))
                     except PredUndec: pass
-            elif st['k'] == 'Expr': hit = pushes_node(st['expr'], env) or hit
-        if e.get('expr') is not None: hit = pushes_node(e['expr'], env) or hit
+            elif st['k'] == 'Expr': hit = pushes_node(st['expr'], env, target) or hit
+        if e.get('expr') is not None: hit = pushes_node(e['expr'], env, target) or hit
         return hit
     if e['k'] == 'If' and e['cond']['k'] != 'Let':
         c = strip(e['cond'])
         if c['k'] == 'Call' and (callee_name(c) or '').endswith('Set::insert'): cv = True          # the first time the node is met
         else: cv = eval_pred(e['cond'], env)
-        if cv: return pushes_node(e['then'], env)
-        return pushes_node(e['else'], env) if e.get('else') is not None else False
+        if cv: return pushes_node(e['then'], env, target)
+        return pushes_node(e['else'], env, target) if e.get('else') is not None else False
     if e['k'] == 'Match' and e.get('source') == 'Normal':
         v = eval_val(e['scrutinee'], env)
         for a in e['arms']:
             env2 = dict(env)
-            if pat_matches(a['pat'], v, env2) and (a.get('guard') is None or eval_pred(a['guard'], env2)): return pushes_node(a['body'], env2)
+            if pat_matches(a['pat'], v, env2) and (a.get('guard') is None or eval_pred(a['guard'], env2)): return pushes_node(a['body'], env2, target)
         raise PredUndec('no arm applies')
-    if e['k'] == 'Call' and callee_name(e) == 'std::vec::Vec::push': return True
+    if e['k'] == 'Call' and callee_name(e) == target: return True
     if e['k'] == 'Tuple' and not e['fields']: return False
-    if any(x['k'] == 'Call' and callee_name(x) == 'std::vec::Vec::push' for x in walk(e)): raise PredUndec('push under %s' % e['k'])
+    if any(x['k'] == 'Call' and callee_name(x) == target for x in walk(e)): raise PredUndec('push under %s' % e['k'])
     return False
 
 def leaf_declared(t, leaf, filt):
@@ -476,6 +476,10 @@ def _x2_table(F, R, binc, FILTERS):
                         if not pat_matches(a_['pat'], ('bdd', leaf), env): continue
                         if a_.get('guard') is not None and not eval_pred(a_['guard'], env): continue
                         got = prints(a_); where = a_
+                        if got:
+                            # the row is written somewhere in the arm: under which of its own conditions (`let shown = match filter {..}; if shown {..}`)
+                            try: got = pushes_node(a_['body'], env, 'rsbdd::print_sized_line')
+                            except PredUndec: got = True
                         break
                 except PredUndec as u:
                     R.violation('%s / X2 / UNDECIDABLE' % fn, 'UNDECIDABLE', 'row filter predicate: %s' % u, (a_.get('guard') or a_['body']).get('loc')); break
@@ -1236,8 +1240,16 @@ def rule_X4(F, R, clauses=('parse', 'order', 'model', 'retain', 'export', 'vars'
             e = strip(e)
             while e['k'] in ('Use', 'NeverToAny'): e = strip(e['source'])
             if e['k'] in ('VarRef', 'UpvarRef'): return val.get(e['var'], ('var', e['var']))
+            if e['k'] == 'Closure': return ('closure', canon(e['def']))
             if e['k'] == 'Call':
                 n = callee_name(e)
+                if callee_decl(e) in ('std::ops::Fn::call', 'std::ops::FnMut::call_mut', 'std::ops::FnOnce::call_once') and len(e['args']) == 2 \
+                        and strip(e['args'][1])['k'] == 'Tuple' and not strip(e['args'][1])['fields']:
+                    # `computation()` with a local closure that takes nothing (handed to an inlined helper such as `timed(|| parsed.eval())`): its body, here
+                    f_ = tv(e['args'][0], val)
+                    ct_ = binc.ithir.get(f_[1]) if f_[0] == 'closure' else None
+                    if ct_ is not None and len(ct_['params']) == 1: return tv(ct_['body'], val)
+                    return ('opaque', pp(e)[:60])
                 if n in NAMES:
                     return ('eval',) if NAMES[n] == 'eval' else (NAMES[n], tv(e['args'][1], val))
                 if n in ('std::option::Option::unwrap_or_default', 'std::option::Option::unwrap', 'std::option::Option::expect', 'std::option::Option::unwrap_or',
